@@ -180,6 +180,7 @@ impl World {
 			path.final_value_msat() as i64,
 			path.fee_msat() as i64,
 			res as i64,
+			path.hops.len() as i64,
 		]);
 		res
 	}
@@ -680,7 +681,7 @@ fn json_rows(rows: &[Vec<i64>]) -> String {
 }
 
 fn main() {
-	panic::set_hook(Box::new(|_| {}));
+	if std::env::var("H_VERBOSE").is_err() { panic::set_hook(Box::new(|_| {})); }
 	let stdin = io::stdin();
 	let stdout = io::stdout();
 	let mut out = stdout.lock();
